@@ -102,7 +102,7 @@ def _serialize_steps(steps, xml_result):
 def _serialize_result(result, xml_result):
     if result.status:
         xml_result.attrib["status"] = result.status
-    if result.status_details:
+    if result.status_details is not None:
         xml_result.attrib["status-details"] = result.status_details
     xml_result.attrib["start-time"] = _serialize_time(result.start_time)
     if result.end_time is not None:
@@ -122,7 +122,7 @@ def _serialize_node_metadata(obj, xml_node):
         xml_property.text = value
     for link in obj.links:
         xml_link = make_xml_child(xml_node, "link")
-        if link[1]:
+        if link[1] is not None:
             xml_link.attrib["name"] = link[1]
         xml_link.text = link[0]
 
@@ -220,17 +220,17 @@ def _unserialize_step(xml_step):
     for xml_log in xml_step:
         if xml_log.tag == "log":
             step_log = Log(
-                xml_log.attrib["level"], xml_log.text, _unserialize_time(xml_log.attrib["time"])
+                xml_log.attrib["level"], xml_log.text or "", _unserialize_time(xml_log.attrib["time"])
             )
         elif xml_log.tag == "attachment":
             step_log = Attachment(
-                xml_log.attrib["description"], xml_log.text,
+                xml_log.attrib["description"], xml_log.text or "",
                 _unserialize_bool(xml_log.attrib["as-image"]),
                 _unserialize_time(xml_log.attrib["time"])
             )
         elif xml_log.tag == "url":
             step_log = Url(
-                xml_log.attrib["description"], xml_log.text, _unserialize_time(xml_log.attrib["time"])
+                xml_log.attrib["description"], xml_log.text or "", _unserialize_time(xml_log.attrib["time"])
             )
         elif xml_log.tag == "check":
             step_log = Check(
@@ -254,9 +254,10 @@ def _unserialize_result(xml_result, result):
 
 
 def _unserialize_node_metadata(xml_node, node):
-    node.tags = [n.text for n in xml_node.findall("tag")]
-    node.properties = {n.attrib["name"]: n.text for n in xml_node.findall("property")}
-    node.links = [(n.text, n.attrib.get("name", None)) for n in xml_node.findall("link")]
+    # an empty text is written as an empty element, which ElementTree reads back as None
+    node.tags = [n.text or "" for n in xml_node.findall("tag")]
+    node.properties = {n.attrib["name"]: n.text or "" for n in xml_node.findall("property")}
+    node.links = [(n.text or "", n.attrib.get("name", None)) for n in xml_node.findall("link")]
 
 
 def _unserialize_test_result(xml_result):
@@ -298,8 +299,8 @@ def _unserialize_report(xml_report):
     report.end_time = _unserialize_time(xml_report.attrib["end-time"]) if "end-time" in xml_report.attrib else None
     report.saving_time = _unserialize_time(xml_report.attrib["generation-time"]) if "generation-time" in xml_report.attrib else None
     report.nb_threads = int(xml_report.attrib["nb-threads"])
-    report.title = xml_report.find("title").text
-    report.info = [(node.attrib["name"], node.text) for node in xml_report.findall("info")]
+    report.title = xml_report.find("title").text or ""
+    report.info = [(node.attrib["name"], node.text or "") for node in xml_report.findall("info")]
 
     xml_setup = xml_report.find("test-session-setup")
     if xml_setup is not None:
